@@ -433,6 +433,14 @@ def lookup_rule(cx, fk, lists):
     if not ok and isinstance(last, ast.Return) and isinstance(last.value, ast.Name):
         inits = [st for st in fk.fn.body if isinstance(st, ast.Assign) and norm(st.targets[0]) == last.value.id]
         ok = bool(inits) and isinstance(inits[0].value, ast.Constant) and inits[0].value.value is None
+    if not ok:
+        # an early `return None` for steps outside the horizon followed by the indexed return: every way out is either
+        # None or the element at the guarded index (whose guards are checked above)
+        from ..flowtools import result_cases as _rc
+
+        cases = _rc(fk.mod, fk.fn, rd, [tp])
+        if cases and any(c.value is None or (isinstance(c.value, ast.Constant) and c.value.value is None) for c in cases):
+            ok = all(c.value is None or (isinstance(c.value, ast.Constant) and c.value.value is None) or any(x in subs for x in ast.walk(c.value)) for c in cases)
     res.check("OCC-DISPATCH", "%s answers None when no time step matches" % fk.name, ok, fk.mod, last, norm(last), "outside the horizon something else than None is returned", qualname=fk.name)
 
 
